@@ -33,6 +33,32 @@ class Perm:
 
 
 _LOCALS: Dict[str, ast.AST] = {}
+_DESC: set = set()       # sorters that already list the positions from the largest query to the smallest (sorted(..., reverse=True))
+
+
+def _index_sort(v: ast.AST) -> Optional[Tuple[str, bool]]:
+    """sorted(range(len(Q)), key=Q.__getitem__ | lambda i: Q[i] [, reverse=True]) -> (Q, descending): the positions of Q in sorted order,
+    i.e. Q.argsort() spelled on index lists"""
+    if not (isinstance(v, ast.Call) and isinstance(v.func, ast.Name) and v.func.id == "sorted" and len(v.args) == 1):
+        return None
+    r = v.args[0]
+    if not (isinstance(r, ast.Call) and isinstance(r.func, ast.Name) and r.func.id == "range" and len(r.args) == 1 and isinstance(r.args[0], ast.Call) and
+            call_name(r.args[0]) == "len" and len(r.args[0].args) == 1 and isinstance(r.args[0].args[0], ast.Name)):
+        return None
+    q = r.args[0].args[0].id
+    kw = {k.arg: k.value for k in v.keywords}
+    if set(kw) - {"key", "reverse"} or "key" not in kw:
+        return None
+    k = kw["key"]
+    key_ok = (isinstance(k, ast.Attribute) and k.attr == "__getitem__" and isinstance(k.value, ast.Name) and k.value.id == q) or \
+        (isinstance(k, ast.Lambda) and len(k.args.args) == 1 and isinstance(k.body, ast.Subscript) and isinstance(k.body.value, ast.Name) and
+         k.body.value.id == q and isinstance(k.body.slice, ast.Name) and k.body.slice.id == k.args.args[0].arg)
+    if not key_ok:
+        return None
+    rv = kw.get("reverse")
+    if rv is not None and not isinstance(rv, ast.Constant):
+        return None
+    return q, bool(rv.value) if rv is not None else False
 
 
 def perm_of(e: ast.AST, sorters: Dict[str, str], _depth: int = 0) -> Optional[Perm]:
@@ -65,6 +91,14 @@ def loop_perm(it: ast.AST, sorters: Dict[str, str], aliases: Dict[str, ast.AST])
         if r:
             return Perm(r[0].base, not r[0].rev, r[0].inv), r[1]
         return None
+    # map(Q.__getitem__, P) / (Q[i] for i in P): Q[P] one element at a time
+    if isinstance(it, ast.Call) and isinstance(it.func, ast.Name) and it.func.id == "map" and len(it.args) == 2 and \
+            isinstance(it.args[0], ast.Attribute) and it.args[0].attr == "__getitem__" and isinstance(it.args[0].value, ast.Name):
+        return loop_perm(ast.Subscript(value=it.args[0].value, slice=it.args[1], ctx=ast.Load()), sorters, aliases)
+    if isinstance(it, (ast.GeneratorExp, ast.ListComp)) and len(it.generators) == 1 and not it.generators[0].ifs and \
+            isinstance(it.generators[0].target, ast.Name) and isinstance(it.elt, ast.Subscript) and isinstance(it.elt.value, ast.Name) and \
+            isinstance(it.elt.slice, ast.Name) and it.elt.slice.id == it.generators[0].target.id:
+        return loop_perm(ast.Subscript(value=it.elt.value, slice=it.generators[0].iter, ctx=ast.Load()), sorters, aliases)
     if isinstance(it, ast.Subscript) and isinstance(it.value, ast.Name):
         p = perm_of(it.slice, sorters)
         if p and not p.inv and sorters.get(p.base) == it.value.id:
@@ -308,6 +342,7 @@ def rule_r1(ctx) -> List[R.Inst]:
         sorters: Dict[str, str] = {}       # sorter var -> array it sorts
         aliases: Dict[str, ast.AST] = {}
         _LOCALS.clear()
+        _DESC.clear()
         for n in walk_no_nested(fn.node):
             if isinstance(n, ast.Assign) and isinstance(n.targets[0], ast.Name) and len(local_defs(fn.node, n.targets[0].id)) == 1:
                 _LOCALS[n.targets[0].id] = n.value
@@ -317,6 +352,11 @@ def rule_r1(ctx) -> List[R.Inst]:
                 if isinstance(v, ast.Call) and call_name(v) == "argsort" and not v.args and not v.keywords and \
                         isinstance(v.func.value, ast.Name):
                     sorters[n.targets[0].id] = v.func.value.id
+                ixs = _index_sort(v)
+                if ixs is not None:
+                    sorters[n.targets[0].id] = ixs[0]
+                    if ixs[1]:
+                        _DESC.add(n.targets[0].id)
         for n in walk_no_nested(fn.node):
             if isinstance(n, ast.Assign) and isinstance(n.targets[0], ast.Name) and isinstance(n.value, ast.Subscript) and \
                     isinstance(n.value.value, ast.Name) and perm_of(n.value.slice, sorters):
@@ -445,9 +485,10 @@ def rule_r1(ctx) -> List[R.Inst]:
                 if isinstance(w.test, ast.Compare) and len(w.test.ops) == 1:
                     # while <change>[cursor].pos > query: cursor -= 1
                     cmp_ok = isinstance(w.test.ops[0], ast.Gt)
-            if p.rev and not p.inv and cmp_ok:
+            descending = p.rev != (p.base in _DESC)
+            if descending and not p.inv and cmp_ok:
                 insts.append(R.ok(rid, k2, file, lp.lineno, idiom="descending sweep, cursor only decrements while change > query"))
-            elif not p.rev:
+            elif not descending:
                 insts.append(R.viol(rid, k2, file, lp.lineno,
                                     "the tempo cursor only moves backwards, so the queries must be visited from last to first; "
                                     "they are visited in ascending order", construct=f"{meth}: ascending sweep with decrementing cursor"))
